@@ -117,7 +117,7 @@ def canon_program(p):
         "ops": ops,
         "vars": [(k, canon_val(v)) for k, v in p.variables.items()],
         "params": sorted(p.parameters),
-        "modes": sorted((canon_mode(m) for m in p.modes), key=repr),
+        "modes": sorted((canon_mode(m) for m in p.modes), key=lambda x: (0, x, "") if isinstance(x, int) else (1, 0, repr(x))),
     })
 
 
